@@ -522,6 +522,7 @@ func runOnce(c Case) ([]vk.Violation, map[string]bool) {
 	const never = int64(1) << 62
 	firstEndIssue := make([]int64, c.Spans)
 	firstEndReturn := make([]int64, c.Spans)
+	lastEndReturn := make([]int64, c.Spans) // by then the End call that delivered the span has returned too
 	enders := make([]int, c.Spans)
 	endTimes := make([]map[int64]bool, c.Spans) // explicit timestamps offered
 	plainEnd := make([]bool, c.Spans)
@@ -538,6 +539,9 @@ func runOnce(c Case) ([]vk.Violation, map[string]bool) {
 			}
 			if r.end < firstEndReturn[s] {
 				firstEndReturn[s] = r.end
+			}
+			if r.end > lastEndReturn[s] {
+				lastEndReturn[s] = r.end
 			}
 			if r.op.K == "endts" {
 				endTimes[s][r.op.TS] = true
@@ -588,12 +592,16 @@ func runOnce(c Case) ([]vk.Violation, map[string]bool) {
 			}
 			// a processor whose registration had returned before the first End
 			// of the span was issued, and whose Unregister (if any) was issued
-			// only after an End had returned, was registered during the whole
-			// ending of the span: it must have got the span
+			// only after EVERY End call on the span had returned, was
+			// registered during the whole ending of the span: it must have got
+			// the span. (Not "after an End had returned": an End call that
+			// lost the race returns at once while the winning call may still be
+			// on its way to the processors - found as a false alarm of this
+			// rule by the thorough tier, one case in 370 000.)
 			re, ok := regEnd[x]
 			us, unreg := unregStart[x]
-			if ok && enders[s] > 0 && re < firstEndIssue[s] && (!unreg || us > firstEndReturn[s]) && n != 1 {
-				bad("registered_processor_missed_span", "span %d was delivered %d time(s) to extra processor %d although its RegisterSpanProcessor call had returned (t=%d) before the first End was issued (t=%d) and it was not unregistered before an End returned", s, n, xi, re, firstEndIssue[s])
+			if ok && enders[s] > 0 && re < firstEndIssue[s] && (!unreg || us > lastEndReturn[s]) && n != 1 {
+				bad("registered_processor_missed_span", "span %d was delivered %d time(s) to extra processor %d although its RegisterSpanProcessor call had returned (t=%d) before the first End was issued (t=%d) and it was not unregistered before every End call had returned (t=%d)", s, n, xi, re, firstEndIssue[s], lastEndReturn[s])
 			}
 			if ok && enders[s] > 0 && re < firstEndIssue[s] {
 				classes["extra_processor_registered_before_end"] = true
